@@ -175,6 +175,65 @@ def bn_scenario(scale, center, use_bias, inv_q):
   return scenario
 
 
+def fuse_scenario(bias_kind):
+  """Whole export of [conv0, bn0] with conv0 fused into bn0: the layer objects are stateful (get_weights returns what
+  set_weights stored), so fused_bias must be the batch-norm algebra on the bias the layer HOLDS AFTER the export."""
+  def scenario(ip):
+    s = Scen()
+    names = ["w", "b", "gamma", "beta", "mean", "var", "eps"]
+    w, b, g, be, mu, var, eps = [z3.Real(n) for n in names]
+    for n, v in zip(names, (w, b, g, be, mu, var, eps)):
+      s.vars[n] = v
+    ip.assume(z3.And(var >= 0, eps > 0))
+    QG, QBt, QM, QV = [z3.Function(n, z3.RealSort(), z3.RealSort()) for n in ("Qg", "Qbeta", "Qmean", "Qvar")]
+    mkq = lambda F, cls="quantized_bits": Obj(ExtClass(cls), {"alpha": None, "__call__": lambda ip_, o, a, k: SNum(F(Q.num_value(a[0])), "tensor")})
+    kq = mkq(QF)
+    bq = mkq(QBIAS) if bias_kind == "q" else None
+    state = {"conv": [SNum(w, "tensor"), SNum(b, "tensor")], "bn": [SNum(g, "tensor"), SNum(be, "tensor"), SNum(mu, "tensor"), SNum(var, "tensor")]}
+    sets = {"conv": 0, "bn": 0}
+
+    def setter(key):
+      def f(ip_, v):
+        state[key] = list(v)
+        sets[key] += 1
+      return f
+    conv = Obj(ExtClass("QConv2D"), {
+        "name": "conv0", "use_bias": True,
+        "get_quantizers": Builtin("get_quantizers", lambda ip_: [kq, bq]),
+        "get_weights": Builtin("get_weights", lambda ip_: list(state["conv"])),
+        "set_weights": Builtin("set_weights", setter("conv"))})
+    bnq = [mkq(QG), mkq(QBt), mkq(QM), mkq(QV), None]
+    bn = Obj(ExtClass("QBatchNormalization"), {
+        "name": "bn0", "quantizers": bnq, "scale": True, "center": True, "epsilon": SNum(eps, "float"),
+        "get_quantizers": Builtin("get_quantizers", lambda ip_: list(bnq)),
+        "get_weights": Builtin("get_weights", lambda ip_: list(state["bn"])),
+        "set_weights": Builtin("set_weights", setter("bn")),
+        "gamma_quantizer_internal": bnq[0], "beta_quantizer_internal": bnq[1], "mean_quantizer_internal": bnq[2],
+        "variance_quantizer_internal": bnq[3], "inverse_quantizer_internal": None})
+    layers = {"conv0": conv, "bn0": bn}
+    model = Obj(ExtClass("Model"), {"layers": [conv, bn], "get_layer": Builtin("get_layer", lambda ip_, n: layers[n])})
+    ip.overrides["qkeras.utils::find_bn_fusing_layer_pair"] = lambda ip_, fv, a, k: ({"conv0": "bn0"}, {"bn0"})
+    r = run_call(ip, ip.find(MS), [model])
+    s.claim("no_raise", r[0] == "return")
+    if r[0] != "return":
+      s.info["raised"] = str(r[1])
+      return s
+    saved = r[1]
+    held_b = Q.num_value(state["conv"][1])
+    s.claim("held_bias_quantized_once", z3.And(sets["conv"] == 1, held_b == (QBIAS(b) if bias_kind == "q" else b)))
+    e = saved.get("conv0", {})
+    if "fused_bias" not in e or "bn_inv" not in e:
+      s.claim("fused_entries", False)
+      return s
+    inv = QG(g) * L.RSQRT(QV(var) + eps)
+    s.claim("bn_inv", Q.num_value(e["bn_inv"]) == inv)
+    # batch-norm algebra on the quantized parameters = on the weights the layer holds after the export
+    s.claim("fused_bias_on_exported_bias", Q.num_value(e["fused_bias"]) == inv * held_b + QBt(be) - inv * QM(mu))
+    s.claim("bn_marked", e.get("enable_bn_fusing") is True and saved.get("bn0", {}).get("enable_bn_fusing") is True)
+    return s
+  return scenario
+
+
 def bounds(vars_):
   cs = []
   for k, v in vars_.items():
@@ -193,6 +252,9 @@ def cases(tier):
     for wb in (None, "q", "plain"):
       out.append(Case(PROP, MS, "%s_bias%s" % (kind, wb or "none"), export_scenario(kind, wb), bounds=bounds,
                       replay_kind="c14_export", assumptions=ASSUME, term_mode=True, lo=-20, hi=20))
+  for bk in ("q", "plain"):
+    out.append(Case(PROP, MS, "fused_conv_bn_bias-%s" % bk, fuse_scenario(bk), bounds=bounds, replay_kind=None,
+                    assumptions=ASSUME, term_mode=True))
   for sc in (True, False):
     for ce in (True, False):
       for ub in (True, False):
